@@ -9,6 +9,7 @@
 -/
 import ICal.Lemmas.CDict
 import ICal.Lemmas.BodiesCDict
+import ICal.Lemmas.BodiesCDictMeta
 namespace ICal.C17
 open ICal.CDict
 
@@ -210,5 +211,32 @@ end bodies
 theorem body_cd_defaults :
     Gen.BodiesCDict.cd_get_default_default = none ∧ Gen.BodiesCDict.cd_pop_default_default = none ∧
       Gen.BodiesCDict.cd_move_to_end_default_last = true := Bodies.cd_defaults
+
+/-! ### `__ne__`, `__eq__`, `sorted_keys`, `sorted_items` as regenerated (wave 7)
+
+Thin methods: what they compare and sort with is given as the model has it.  The translation pins their shape and their
+presence - a method removed from the class makes `tools/extract.py` fail, which breaks this property's tie. -/
+
+theorem body_cd_ne {V : Type} [DecidableEq V] (up : Str → Str) (s : Store V) (other : List (Str × V)) :
+    Gen.BodiesCDictMeta.cd_ne (self_ := s) (other := other) (eq_other := fun s o => cdEq up s o) = !cdEq up s other :=
+  Bodies.cd_ne_eq up s other
+
+theorem body_cd_eq {V : Type} [DecidableEq V] (up : Str → Str) (s : Store V) (other : List (Str × V)) :
+    Gen.BodiesCDictMeta.cd_eq (self_ := s) (other := other) (same_object := fun _ _ => false) (has_items := fun _ => true)
+      (dict_eq := fun s o => cdEq up s o) = some (cdEq up s other) := Bodies.cd_eq_mapping up s other
+
+/-- the same object is equal; an operand without `items` gives NotImplemented (`none`) -/
+theorem body_cd_eq_shape {S O : Type} (s : S) (o : O) (hi : O → Bool) (de : S → O → Bool) :
+    Gen.BodiesCDictMeta.cd_eq (self_ := s) (other := o) (same_object := fun _ _ => true) (has_items := hi) (dict_eq := de) = some true ∧
+    Gen.BodiesCDictMeta.cd_eq (self_ := s) (other := o) (same_object := fun _ _ => false) (has_items := fun _ => false) (dict_eq := de) = none :=
+  Bodies.cd_eq_shape s o hi de
+
+theorem body_cd_sorted_keys {V : Type} (s : Store V) (order : List Str) :
+    Gen.BodiesCDictMeta.cd_sorted_keys (self_ := s) (keys := fun s => odKeys s) (canonical_order := fun _ => order)
+      (canonsort_keys := fun ks o => canonsort ks o) = canonsort (odKeys s) order := rfl
+
+theorem body_cd_sorted_items {V : Type} (up : Str → Str) (s : Store V) (order : List Str) :
+    Gen.BodiesCDictMeta.cd_sorted_items (self_ := s) (canonical_order := fun _ => order)
+      (canonsort_items := fun s o => cdSortedItems up s o) = cdSortedItems up s order := rfl
 
 end ICal.C17
